@@ -55,9 +55,13 @@ func c02Plan(seed int64, tier string) []core.Case {
 func c02Run(c core.Case) *core.Result {
 	r := core.NewResult()
 	rng := c.Rng()
-	f := gen.RandFile(rng, gen.FileOpts{MaxBlocks: 14, SmallOnly: c.Int("big") == 0, ExtraField: true})
+	f := gen.RandFile(rng, gen.FileOpts{MaxBlocks: 14, SmallOnly: c.Int("big") == 0, ExtraField: true, MaxMember: true})
 	rd := c.Int("rd")
 	cfg := fmt.Sprintf("rd=%d hook=%d procs=%d blocks=%d eofmarker=%v", rd, c.Int("hook"), c.Int("procs"), len(f.Blocks), f.HasEOF)
+	if f.MaxMember {
+		cfg += " one-member-of-65536-bytes"
+		r.Count("files_with_a_max_size_member", 1)
+	}
 	var hist []string
 	withProcs(c.Int("procs"), func() {
 		traced(r, c.Seed, c.Int("hook"), "interleavings", func(t *mon.Tracer) {
@@ -90,6 +94,7 @@ func runHistory(r *core.Result, rng *rand.Rand, f *gen.File, rr *bgzf.Reader, no
 // uncached reader of the same file) and requires identical observable results.
 func runHistory2(r *core.Result, rng *rand.Rand, f *gen.File, rr, ref *bgzf.Reader, nops int, ho histOpts, cfg string, hist *[]string) {
 	m := &rmodel{f: f}
+	var usedCaches []bgzf.Cache
 	same := func(op rop, a, b stepResult) bool {
 		if ref == nil {
 			return true
@@ -113,8 +118,55 @@ func runHistory2(r *core.Result, rng *rand.Rand, f *gen.File, rr, ref *bgzf.Read
 		}
 		r.Violate("history|"+cls, "%s\n%s\nlast operations: %v", cfg, detail, h)
 	}
+	var curCache, suspended bgzf.Cache
+	var pending []rop
 	for i := 0; i < nops; i++ {
-		op := nextOp(rng, m, ho, recent)
+		var op rop
+		if len(pending) > 0 {
+			op, pending = pending[0], pending[1:]
+		} else if ho.caches && curCache != nil && len(recent) > 0 && rng.Intn(14) == 0 {
+			// scenario: revisit a block (served by the cache), suspend the cache,
+			// read on into the following blocks, re-attach the same cache object,
+			// come back to the block.
+			b := recent[rng.Intn(len(recent))]
+			pending = []rop{
+				{Kind: 'S', Blk: b, Cls: "revisit"},
+				{Kind: 'C', Aux: -1},
+				{Kind: 'R', N: f.Blocks[b].Len + 1 + rng.Intn(200)},
+				{Kind: 'C', Aux: -2},
+				{Kind: 'S', Blk: b, Cls: "revisit"},
+				{Kind: 'R', N: 1 + rng.Intn(300)},
+			}
+			op, pending = pending[0], pending[1:]
+			r.Count("suspend_reattach_scenarios", 1)
+		} else if len(f.Blocks) >= 6 && rng.Intn(10) == 0 {
+			// scenario: two redirections of the read-ahead goroutine back to
+			// back - Seek far away, at once Seek to a block read-ahead had
+			// already queued before the first Seek, then read across several
+			// block ends so that everything queued earlier is used up.
+			cur := m.curBlock()
+			if cur < 0 {
+				cur = 0
+			}
+			near := cur + 1 + rng.Intn(3)
+			if near >= len(f.Blocks) {
+				near = len(f.Blocks) - 1
+			}
+			far := rng.Intn(len(f.Blocks))
+			n := 10
+			for k := near; k < len(f.Blocks) && k < near+2+rng.Intn(2); k++ {
+				n += f.Blocks[k].Len
+			}
+			pending = []rop{
+				{Kind: 'S', Blk: far, Cls: "random"},
+				{Kind: 'S', Blk: near, Cls: "queued-before-last-seek"},
+				{Kind: 'R', N: n},
+			}
+			op, pending = pending[0], pending[1:]
+			r.Count("double_seek_scenarios", 1)
+		} else {
+			op = nextOp(rng, m, ho, recent)
+		}
 		*hist = append(*hist, op.String())
 		switch op.Kind {
 		case 'S':
@@ -164,8 +216,26 @@ func runHistory2(r *core.Result, rng *rand.Rand, f *gen.File, rr, ref *bgzf.Read
 				crossings++
 			}
 		case 'C':
-			rr.SetCache(mkCache(op.Aux, op.N, len(f.Blocks)))
+			// a fresh cache, no cache, or one of the caches attached earlier in this history
+			var cc bgzf.Cache
+			if op.Aux == -1 {
+				suspended, cc = curCache, nil
+			} else if op.Aux == -2 {
+				cc = suspended
+				r.Count("setcache_reattach_ops", 1)
+			} else if len(usedCaches) > 0 && op.N%3 == 0 {
+				cc = usedCaches[op.Aux%len(usedCaches)]
+				r.Count("setcache_reattach_ops", 1)
+			} else {
+				cc = mkCache(op.Aux, op.N, len(f.Blocks))
+				if cc != nil {
+					usedCaches = append(usedCaches, cc)
+				}
+			}
+			rr.SetCache(cc)
+			curCache = cc
 			r.Count("setcache_ops", 1)
+
 		case 'T':
 			applyOp(rr, f, op)
 			if ref != nil {
